@@ -230,6 +230,8 @@ def _layouts(rows, K, tier):
         lays.append(("3d_noncontig", (max(1, rows // 2), 2, K)))
     if rows in (8, 16):
         lays.append(("4d", (2, 2, rows // 4, K)))
+    if rows in (8, 17):
+        lays.append(("expanded", (1, K)))  # a (1,K) activation expanded to (rows,K): row stride 0
     return lays
 
 
@@ -307,6 +309,13 @@ def _linear_task(task, out):
                             if only and only != c:
                                 continue
                             x, x64, _, _ = _act(akind, shape, dt, family, fam_phase)
+                            if layout == "expanded":
+                                if isinstance(x, QBytesTensor):
+                                    d = x._data.expand(rows, K)
+                                    x = QBytesTensor(x.qtype, None, d.size(), d.stride(), d, x._scale)
+                                else:
+                                    x = x.expand(rows, K)
+                                x64 = x64.expand(rows, K)
                             if layout == "colvec_t":
                                 if isinstance(x, QBytesTensor):
                                     d = x._data.t()
